@@ -275,14 +275,55 @@ func (p *Prog) loadContractFile(path string) error {
 			p.boundedChecks = append(p.boundedChecks, boundedCheck{Label: m[1], File: m[2], Test: m[3], Props: strings.Fields(m[4])})
 			continue
 		}
-		if strings.HasPrefix(line, "wiredual ") {
-			// wiredual props Cxx ...: the relational encode/decode contract (wire.go) for every type of the package
-			// with an encode(packetEncoder, ...) and a decode(packetDecoder, ...) method
-			m := regexp.MustCompile(`^wiredual\s+props\s+(.*)$`).FindStringSubmatch(line)
+		if strings.HasPrefix(line, "wiredual[") {
+			// wiredual[balanced] props C10: only the named clause(s) of the relational contract serve the property
+			m := regexp.MustCompile(`^wiredual\[([\w ,]+)\]\s+props\s+(.*)$`).FindStringSubmatch(line)
 			if m == nil {
 				return fmt.Errorf("%s:%d: bad wiredual directive", path, lineNo)
 			}
-			p.wireProps = append(p.wireProps, strings.Fields(m[1])...)
+			for _, pr := range strings.Fields(m[2]) {
+				p.wireProps = append(p.wireProps, pr)
+				if p.wireTypes == nil {
+					p.wireTypes = map[string]map[string]bool{}
+				}
+				p.wireTypes[pr] = nil
+				if p.wireClauses == nil {
+					p.wireClauses = map[string]map[string]bool{}
+				}
+				set := map[string]bool{}
+				for _, c := range strings.FieldsFunc(m[1], func(r rune) bool { return r == ',' || r == ' ' }) {
+					set[c] = true
+				}
+				p.wireClauses[pr] = set
+			}
+			continue
+		}
+		if strings.HasPrefix(line, "wiredual ") {
+			// wiredual props Cxx ...: the relational encode/decode contract (wire.go) for every type of the package
+			// with an encode(packetEncoder, ...) and a decode(packetDecoder, ...) method
+			// optional restriction to some types: wiredual props C04: ProduceRequest Records ...
+			m := regexp.MustCompile(`^wiredual\s+props\s+([^:]*)(?::\s*(.*))?$`).FindStringSubmatch(line)
+			if m == nil {
+				return fmt.Errorf("%s:%d: bad wiredual directive", path, lineNo)
+			}
+			for _, pr := range strings.Fields(m[1]) {
+				p.wireProps = append(p.wireProps, pr)
+				if p.wireTypes == nil {
+					p.wireTypes = map[string]map[string]bool{}
+				}
+				if strings.TrimSpace(m[2]) == "" {
+					p.wireTypes[pr] = nil
+				} else {
+					if _, all := p.wireTypes[pr]; all && p.wireTypes[pr] == nil {
+						continue
+					}
+					set := map[string]bool{}
+					for _, t := range strings.Fields(m[2]) {
+						set[t] = true
+					}
+					p.wireTypes[pr] = set
+				}
+			}
 			continue
 		}
 		if strings.HasPrefix(line, "lean[") {
